@@ -222,6 +222,16 @@ class ArgumentGroup(ActionsContainer, argparse._ArgumentGroup):
     parser: Optional[Union["ArgumentParser", "ActionsContainer"]] = None
 
 
+def _same_serialized(val, default) -> bool:
+    """True == 1 == 1.0 in python, but these are different values in a config."""
+    import json
+
+    try:
+        return json.dumps(val, sort_keys=True) == json.dumps(default, sort_keys=True)
+    except (TypeError, ValueError):
+        return True
+
+
 class ArgumentParser(ParserDeprecations, ActionsContainer, ArgumentLinking, argparse.ArgumentParser):
     """Parser for command line, configuration files and environment variables."""
 
@@ -855,7 +865,7 @@ class ArgumentParser(ParserDeprecations, ActionsContainer, ArgumentLinking, argp
                     class_object_val = val
                     val = val.get("init_args")
                     default = default.get("init_args")
-                if val == default:
+                if val == default and _same_serialized(val, default):
                     del subcfg[key]
                 elif isinstance(val, dict) and isinstance(default, dict):
                     if class_object_val:
